@@ -637,7 +637,7 @@ class CBO(Search):
 
         elif name == "GBRT":
             default_surrogate_model_kwargs = dict(
-                n_estimtaors=10,
+                n_estimators=10,
                 n_jobs=n_jobs,
                 random_state=random_state,
             )
